@@ -1,9 +1,95 @@
-import ShpanVerif.Util.Parse
-/- Driver handler for C02 (stub: replaced when the property's model lands). -/
-namespace ShpanVerif.Drive.C02
+import ShpanVerif.Drive.ConcAccept
+/-
+Driver handler for C02.  Case / observation format: harness/run/conc_util.go.
 
-/-- returns (model output, spec verdict on the observation, reason) -/
-def handle (_c _obs : String) : String × Bool × String :=
-  ("unimplemented", false, "no model yet")
+spec predicate (independent of the model): replay the linearised provider log — `o` Open returned, `s<g>` Emit started
+on goroutine g, `r<g>…` Emit returned, `C<g>:<k>` Close called while k Emits were running — and check the three clauses:
+every `s` after `o` and before `C` (window), never two Emits running (exclusive), no `C` while an Emit runs (k = 0 and
+no unmatched `s`); the provider's own atomic observations (`flags`) must be empty as well.
+A failure whose clauses are only close-during-emit / emit-after-close, on an operator containing a concurrent map, in
+a run where the source had not reached EOF before Close (the consumer stopped early / failed / was cancelled) is the
+known finding D5: the reason starts with `KF:D5`.  Everything else is a violation.
+
+model output: the observation is echoed iff the model admits it:
+  * concurrent map, scripted, small (n ≤ 6, c ≤ 3): trace acceptance (`acceptCmap`, τ-closure over the transition system);
+  * otherwise the theorem-level statement: concurrent consume / Buffered / JSON pipe admit no violating log
+    (`C02_consume`, `C02_buffered`, `C02_pipe`); the concurrent map admits a close/emit overlap only in runs where the
+    consumer did not drain the stage (`C02_concmap_partial`) and never two Emits at once (`C02_exclusive_concmap`).
+-/
+namespace ShpanVerif.Drive.C02
+open ShpanVerif.Util ShpanVerif.Model ShpanVerif.Drive.Conc
+
+structure Scan where
+  opened : Bool := false
+  closed : Bool := false
+  inflight : Nat := 0
+  sawEof : Bool := false        -- an Emit returned io.EOF before the first Close
+  viol : List Char := []
+
+def addV (v : Char) (l : List Char) : List Char := if l.contains v then l else l ++ [v]
+
+def scanEv (sc : Scan) (ev : String) : Scan :=
+  match ev.toList with
+  | 'o' :: _ => { sc with opened := true }
+  | 's' :: _ =>
+    let v := sc.viol
+    let v := if !sc.opened then addV 'B' v else v
+    let v := if sc.closed then addV 'A' v else v
+    let v := if sc.inflight ≥ 1 then addV 'O' v else v
+    { sc with inflight := sc.inflight + 1, viol := v }
+  | 'r' :: rest =>
+    { sc with inflight := sc.inflight - 1, sawEof := sc.sawEof || (!sc.closed && rest.getLast? == some 'e') }
+  | 'C' :: _ =>
+    let k := match ev.splitOn ":" with
+      | [_, b] => (b.toNat?).getD 0
+      | _ => 0
+    let v := if sc.inflight > 0 || k > 0 then addV 'D' sc.viol else sc.viol
+    { sc with closed := true, viol := v }
+  | _ => sc
+
+def scanLog (o : Obs) : Scan :=
+  let sc := o.plog.foldl scanEv {}
+  -- union with what the provider itself observed
+  let fl := if o.flags == "-" then [] else o.flags.toList
+  { sc with viol := fl.foldl (fun v c => addV c v) sc.viol }
+
+def hasCmap (c : Case) : Bool := c.op == "cmap" || c.op == "nest"
+
+def spec (c : Case) (o : Obs) : Bool × String :=
+  if c.trials > 1 then (true, "") else
+  if o.res == "hang" || o.res == "crash" || o.res == "panic" then (false, s!"run ended with {o.res}") else
+  let sc := scanLog o
+  if sc.viol.isEmpty then (true, "")
+  else
+    let vs := String.ofList sc.viol
+    if hasCmap c && sc.viol.all (fun v => v == 'A' || v == 'D') && !sc.sawEof then
+      (false, s!"KF:D5 concurrent map: source Close overlaps / precedes an Emit ({vs}) after the consumer stopped before EOF")
+    else (false, s!"provider contract violated: {vs} (B=emit before open, A=emit after close, O=two emits at once, D=close during emit)")
+
+def model (c : Case) (o : Obs) (obsText : String) : String :=
+  if c.trials > 1 then obsText else
+  let sc := scanLog o
+  if c.op == "cmap" && c.sync then
+    match acceptCmap c o with
+    | "accepted" => obsText
+    | "skipped" =>
+      if sc.viol.contains 'O' || sc.viol.contains 'B' || (sc.sawEof && !sc.viol.isEmpty) then
+        "model(C02_concmap_partial / C02_exclusive_concmap) admits no such log"
+      else obsText
+    | why => s!"model(ConcMap) {why}"
+  else if hasCmap c then
+    if sc.viol.contains 'O' || sc.viol.contains 'B' || (sc.sawEof && !sc.viol.isEmpty) then
+      "model(C02_concmap_partial / C02_exclusive_concmap) admits no such log"
+    else obsText
+  else if sc.viol.isEmpty then obsText
+  else s!"model(C02_{c.op}) admits no violating log"
+
+def handle (cs obs : String) : String × Bool × String :=
+  match parseCase cs with
+  | none => ("bad-case", false, "unparsable case")
+  | some c =>
+    let o := parseObs obs
+    let (ok, why) := spec c o
+    (model c o obs, ok, why)
 
 end ShpanVerif.Drive.C02
